@@ -3,6 +3,7 @@ package sym
 import (
 	"fmt"
 	"sync"
+	"time"
 	"go/constant"
 	"go/token"
 	"go/types"
@@ -63,6 +64,7 @@ type frame struct {
 type fnInfo struct {
 	slots map[ssa.Value]int
 	n     int
+	ipdom []int
 }
 
 // Violation is a failed assertion or reachable panic with its model.
@@ -147,6 +149,11 @@ type Exec struct {
 	inEnv         bool
 	skipPhis      bool
 	rawInit       bool
+	deadline      time.Time
+	blockTicks    int
+	specWatermark int
+	persistSeq    int
+	mergeFail     map[mergeKey]int
 	pcSet         map[*Term]int
 	pcLits        []*Term
 	pcHash        []uint64
@@ -160,7 +167,7 @@ var QuerySitesMu sync.Mutex
 // Limits.
 const (
 	maxDepth      = 200
-	maxBlockVisit = 200000
+	maxBlockVisit = 5000
 )
 
 func (ex *Exec) fnInfoOf(fn *ssa.Function) *fnInfo {
@@ -302,7 +309,7 @@ func (ex *Exec) feasible(c *Term) bool {
 		}
 	}
 	lits := append(append([]*Term{}, ex.pc...), c)
-	r, m := ex.S.Check(lits, ex.modelVars())
+	r, m := ex.check(lits, ex.modelVars())
 	if QuerySites != nil && ex.curFrame != nil {
 		QuerySitesMu.Lock()
 		QuerySites[ex.curFrame.fn.String()+" "+r.String()]++
@@ -399,6 +406,18 @@ func (ex *Exec) branch(c *Term) bool {
 	if c.IsConst() {
 		return c.Val != 0
 	}
+	if ex.speculating > 0 {
+		// only the literal set may be consulted here: it is a function of the
+		// path, whereas the unsat cache depends on which queries this worker
+		// happened to make earlier (re-execution must decide identically)
+		ex.pcSync()
+		if _, ok := ex.pcSet[c]; ok {
+			return true
+		}
+		if _, ok := ex.pcSet[ex.C.Not(c)]; ok {
+			return false
+		}
+	}
 	if ex.choose([]*Term{c, ex.C.Not(c)}) == 0 {
 		return true
 	}
@@ -445,7 +464,7 @@ func (ex *Exec) concretizeAny(t *Term, what string) uint64 {
 	pv := ex.varFor(t)
 	for len(vals) < 65 {
 		lits := append(append([]*Term{}, ex.pc...), excl...)
-		r, m := ex.S.Check(lits, []*Term{pv})
+		r, m := ex.check(lits, []*Term{pv})
 		if r == Unsat {
 			break
 		}
@@ -499,6 +518,9 @@ func (ex *Exec) addPCNoCheck(t *Term) {
 // ---- nondet ----
 
 func (ex *Exec) fresh(name string, w int) *Term {
+	if ex.speculating > 0 {
+		panic(specAbort{})
+	}
 	k := ex.nondetN[name]
 	ex.nondetN[name] = k + 1
 	full := name
@@ -809,6 +831,10 @@ func (ex *Exec) run2(fr *frame) (Value, *goPanic) {
 			fr.visits = map[*ssa.BasicBlock]int{}
 		}
 		fr.visits[block]++
+		ex.blockTicks++
+		if ex.blockTicks&0xff == 0 && !ex.deadline.IsZero() && time.Now().After(ex.deadline) {
+			panic(engineErr("budget: wall-clock deadline reached inside a path (in %s)", fr.fn))
+		}
 		if n := fr.visits[block]; n > ex.blockLimit(fr.fn) {
 			panic(engineErr("unwinding bound exceeded in %s block %d (%d visits)", fr.fn, block.Index, n))
 		}
@@ -858,9 +884,14 @@ func (ex *Exec) run2(fr *frame) (Value, *goPanic) {
 			case *ssa.If:
 				c := ex.get(fr, x.Cond).(*Term)
 				if !c.IsConst() {
-					if nb, ok := ex.tryMerge(fr, block, c); ok {
-						next = nb.join
-						merged = true
+					if out, ok := ex.tryMerge(fr, block, c); ok {
+						if out.returned {
+							ret = out.ret
+							done = true
+						} else {
+							next = out.join
+							merged = true
+						}
 						break
 					}
 				}
@@ -1711,3 +1742,11 @@ func widthOfFloat(t types.Type) int {
 }
 
 var _ = math.Inf
+
+// check is the only route to the solver: it enforces the wall-clock budget.
+func (ex *Exec) check(lits []*Term, vars []*Term) (Result, Model) {
+	if !ex.deadline.IsZero() && time.Now().After(ex.deadline) {
+		panic(engineErr("budget: wall-clock deadline reached before a solver query"))
+	}
+	return ex.S.Check(lits, vars)
+}
